@@ -11,6 +11,8 @@
 
 package internal
 
+//@ macro C = c != nil && c.info != nil
+
 // ---------------------------------------------------------------------------
 // C14: a Slice / Map is accepted exactly when the collection's element (key,
 // value) types are assignable to the corresponding parameters of its function.
@@ -21,7 +23,7 @@ package internal
 //@   ghost elemT ref = 0
 //@   ghost asked bool = false
 //@   ghost assignable bool = false
-//@   requires c != nil && ce != nil && c.info != nil
+//@   requires $C && ce != nil
 //@   requires typeChecked-slice-has-function-and-collection: len(ce.Args) >= 2
 //@   at call compileFunction 1 assume compiled-function-well-formed: implies(ret != nil, len(ret.Inputs) >= 0 && len(ret.Outputs) >= 0)
 //@   at call Elem 1 ghost elemT = ret
@@ -40,7 +42,8 @@ package internal
 //@   ghost askedVal bool = false
 //@   ghost keyOK bool = false
 //@   ghost valOK bool = false
-//@   requires c != nil && ce != nil && c.info != nil
+//@   requires $C && ce != nil
+//@   at call compileMapEnd 1 pre assume typeChecked-mapend-arity: len(arg2.Args) == 1
 //@   requires typeChecked-map-has-function-and-collection: len(ce.Args) >= 2
 //@   at call compileFunction 1 assume compiled-function-well-formed: implies(ret != nil, len(ret.Inputs) >= 0 && len(ret.Outputs) >= 0)
 //@   at call Key 1 ghost keyT = ret
@@ -53,3 +56,109 @@ package internal
 //@   at call AssignableTo 2 ghost valOK = ret
 //@   ensures [C14] accepted-only-if-key-and-value-assignable: implies(result != nil, askedKey && keyOK && askedVal && valOK)
 //@   ensures [C14] assignable-key-and-value-are-accepted: implies(askedKey && keyOK && askedVal && valOK, result != nil)
+
+// ---------------------------------------------------------------------------
+// C13: the directive compiler never dies with a Go panic on type-correct
+// input. Zero-annotation sweep: every nil dereference, index, slice bound,
+// type assertion, nil-interface method call, nil receiver of a go/types /
+// go/ast accessor and registered library precondition (constant.BoolVal,
+// types.Tuple.At) inside the functions below is an obligation.
+//
+// "typeChecked-..." clauses state what the Go type checker guarantees for a
+// call of a cff directive stub that compiled under the cff tag: arity of each
+// directive (from the stub signatures in cff.go), and that every argument
+// expression has a type in types.Info. They are assumptions (listed in the
+// evidence), not proved. Library invariants of go/types (no typed-nil inside
+// Type/Object values, Info map entries non-nil, accessors listed in
+// engine/cmd/cffvc/main.go never return nil) are assumed likewise.
+
+//@ func isContext
+//@   option props=[C13]
+
+//@ func isError
+//@   option props=[C13]
+
+//@ func isPackagePathEquivalent
+//@   option props=[C13]
+
+//@ func (*compiler).compileInvoke
+//@   option props=[C13]
+//@   requires $C && flow != nil && o != nil
+//@   requires typeChecked-invoke-has-one-argument: len(o.Args) == 1
+
+//@ func (*compiler).identifyOption
+//@   option props=[C13]
+//@   requires $C
+//@   at call Pkg 2 assume typeChecked-option-callee-is-declared-in-a-package: ret != nil
+//@   ensures [C13] success-returns-call-and-callee: implies(result2 == nil, result0 != nil && result1 != nil)
+
+//@ func (*compiler).compileSliceEnd
+//@   option props=[C13]
+//@   requires $C && ce != nil
+//@   requires typeChecked-sliceend-has-function: len(ce.Args) >= 1
+
+//@ func (*compiler).compileMapEnd
+//@   option props=[C13]
+//@   requires $C && ce != nil
+//@   requires typeChecked-mapend-has-function: len(ce.Args) >= 1
+
+//@ func (*compiler).applySliceOptions
+//@   option props=[C13]
+//@   requires $C && t != nil
+//@   at call compileSliceEnd 1 pre assume typeChecked-sliceend-arity: len(arg2.Args) == 1
+
+//@ func (*compiler).compileInput
+//@   option props=[C13]
+//@   requires $C
+
+//@ func (*compiler).compileOutput
+//@   option props=[C13]
+//@   requires $C
+
+//@ func (*compiler).compileFunction
+//@   option props=[C13]
+//@   requires $C
+//@   at call TypeOf 1 assume typeChecked-argument-expression-has-a-type: ret != nil
+//@   loop 1 invariant index-non-negative: 0 <= i
+//@   loop 2 invariant index-non-negative: 0 <= i
+
+//@ func (*compiler).compilePredicate
+//@   option props=[C13]
+//@   requires $C && f != nil && t != nil && call != nil
+//@   requires typeChecked-predicate-has-function: len(call.Args) == 1
+//@   at call compileFunction 1 assume unproved-compileFunction-keeps-the-single-non-error-result: implies(ret != nil, len(ret.Outputs) >= 1)
+
+//@ func (*compiler).compileParallelTaskFn
+//@   option props=[C13]
+//@   requires $C && p != nil
+
+//@ func (*compiler).compileParallelTask
+//@   option props=[C13]
+//@   requires $C && p != nil
+//@   at call compileInstrument 1 pre assume typeChecked-instrument-arity: len(arg1.Args) == 1
+
+//@ func (*compiler).compileParallelTasks
+//@   option props=[C13]
+//@   requires $C && p != nil && call != nil
+
+//@ func checkParallelTask
+//@   option props=[C13]
+//@   requires fn != nil
+
+//@ func (*compiler).interpretTaskOptions
+//@   option props=[C13]
+//@   requires $C && flow != nil && t != nil && t.Function != nil && t.Function.Sig != nil
+//@   loop 2 invariant index-non-negative: 0 <= i
+//@   at call compilePredicate 1 pre assume typeChecked-predicate-arity: len(arg3.Args) == 1
+//@   at call compileInstrument 1 pre assume typeChecked-instrument-arity: len(arg1.Args) == 1
+//@   at call compileInvoke 1 pre assume typeChecked-invoke-arity: len(arg2.Args) == 1
+
+//@ func (*compiler).compileTask
+//@   option props=[C13]
+//@   requires $C && flow != nil
+//@   at call compileFunction 1 assume compiled-function-has-a-signature: implies(ret != nil, ret.Sig != nil)
+
+//@ func (*compiler).compileInstrument
+//@   option props=[C13]
+//@   requires c != nil && call != nil
+//@   requires typeChecked-instrument-has-name: len(call.Args) == 1
